@@ -22,22 +22,29 @@ PARSE_RULE = ("streams: all words of <= 3 (quick) / 4 (thorough) tokens over {da
 
 PROPS["C01"] = {
     "families": ["parse_c01"],
-    "level_text": "Proof + correspondence: see coq/props/C01.v for the theorems that are closed (and, in comments, any full-strength statement that is only proved in part). "
-                  "The oracle holds_parse_c01 compares the observed yields of the real code with Whatwg.interp of the concatenated stream, for every segmentation, "
-                  "whenever every group fits the limit.",
+    "level_text": "Proof (partial at the top) + correspondence. Proved for all streams/states/stops/endings: line_step (scan_segment + the switch of read() = Whatwg.process_line), "
+                  "read_loop_spec (the read loop over the fields of a stream's lines = Whatwg.interp, incl. end rules and early stop), the line-by-line form of the specification "
+                  "(interp_lines_eq), the characterisation of splitFunc's tokens (split_func_tok/_shape), segmentation independence at the split level (split_path_toks + spec_toks: "
+                  "every way of consulting splitFunc on prefixes gives the same interpretation), and scan_spec (bufio.Scanner.Scan for every reader script cuts such tokens). "
+                  "Partial: tokens_interp composes these without the scanner for streams without leading BOM; the end-to-end equations C01_read / C01_connection on the model stack are "
+                  "NOT proved (missing lemma parser_fields: Parser.Next over the scanner's tokens hands out fields_of of a tokenisation, incl. the BOM wrapper; and fitsb -> no ErrTooLong); "
+                  "split_stable in its sharp form is not proved (made unnecessary by spec_toks). The gap is covered by the correspondence (model = code on every case) and by the oracle "
+                  "holds_parse_c01 (code = Whatwg.interp of the concatenated stream for every segmentation whenever every group fits the limit).",
     "level_note": PARSER_NOTE,
     "rule": PARSE_RULE,
-    "assumptions": ["Read offers no retry callback: its yields are compared with the specification's after removing the retry notifications",
-                    "the scripted reader returns the end (EOF or error) in a Read call of its own, never (0, nil)"],
+    "assumptions": ["Read offers no retry callback: its yields are compared with the specification's after removing the retry notifications (Whatwg.interp emits them in every mode)",
+                    "the scripted reader returns the end (EOF or error) in a Read call of its own, never (0, nil); a read error is not io.EOF"],
 }
 
 PROPS["C20"] = {
     "families": ["parse_c20"],
-    "level_text": "Proof + correspondence: see coq/props/C20.v. The oracle holds_parse_c20 checks on the real code: no panic; bytes pulled minus the end of the last complete "
-                  "group within them <= L = max(maxSize, cap(buf)) (default 65536); the yields are the specification's, or the specification's up to a group that does not fit "
-                  "followed by bufio.ErrTooLong - never a partial event.",
+    "level_text": "Proof + correspondence. Proved in full on the whole model stack for every reader script, every (cap(buf), maxSize) incl. 0/negative/absent, both entry points, every early stop "
+                  "(read_run_bounded): no Panic outcome (ErrAdvanceTooFar, bufio's empty-token panic) and no OutOfFuel, bytes pulled = bytes consumed by tokens + bytes buffered and bytes buffered <= "
+                  "L = max(maxSize, cap(buf)) (default 65536) at every point and at the end. Partial (C20_tokens_complete_partial): every token handed out while input remains ends with a blank line and "
+                  "ErrTooLong hands out no token; the statement 'fitsb L s -> delivered completely and intact, else the specification's yields up to the oversized group followed by TooLong' is not "
+                  "proved on the model (same missing composition lemma as C01, plus fitsb -> no ErrTooLong) and is checked on the real code by the oracle holds_parse_c20.",
     "level_note": PARSER_NOTE,
     "rule": PARSE_RULE,
-    "assumptions": ["the limit is max(maxSize, cap(buf)) as bufio.Scanner.Buffer documents; a group's size counts the blank lines before it and the first byte of the blank line after it",
+    "assumptions": ["the limit is max(maxSize, cap(buf)) as bufio.Scanner.Buffer documents; a group's size counts the blank lines before it and the first byte of the blank line after it; the rest of the stream after the last group must be shorter than the limit (the scanner needs room to be told that the input ended)",
                     "when a group's blank line ends in CR and the next byte is LF, that LF may count towards either neighbour (one byte of slack, depends on the read segmentation)"],
 }
